@@ -194,4 +194,110 @@ def runEmit (prop toS valS extS implS : String) : Result :=
   | some to, some v => judge prop s!"emit to=[{toS}] v=[{valS}]" (exportLine env to v) implS
   | _, _ => ⟨"B", "cannot parse template or value"⟩
 
+mutual
+  def jvEq : JV → JV → Bool
+    | .null, .null => true
+    | .bool a, .bool b => a == b
+    | .num a, .num b => a == b
+    | .str a, .str b => a == b
+    | .arr a, .arr b => jvEqL a b
+    | .obj a, .obj b => jvEqM a b
+    | _, _ => false
+  def jvEqL : JVList → JVList → Bool
+    | .nil, .nil => true
+    | .cons a as, .cons b bs => jvEq a b && jvEqL as bs
+    | _, _ => false
+  def jvEqM : JVMembers → JVMembers → Bool
+    | .nil, .nil => true
+    | .cons k a as, .cons k' b bs => k == k' && jvEq a b && jvEqM as bs
+    | _, _ => false
+end
+
+/-- C02 on one in-domain line: accepted; the output denotes the same ordered tree (strings
+    decoded, number literals verbatim); writing is a fixed point. -/
+def c02Violation (input : Bytes) (first : Impl) (second : Option Impl) : Option String :=
+  if first.panic then some "panic"
+  else if !first.ok then some "valid-object-rejected"
+  else
+    match first.bytes.reverse with
+    | 0x0A :: rb =>
+      let out := rb.reverse
+      let (inMs, okIn) := Json.unmarshal input
+      let (outMs, okOut) := Json.unmarshal out
+      if !okIn then some "generator-produced-invalid-input"
+      else if !okOut then some "output-not-a-json-object"
+      else if !(jvEqM inMs outMs) then some "tree-changed"
+      else
+        match second with
+        | none => some "second-pass-missing"
+        | some s2 => if s2.ok && s2.bytes == first.bytes then none else some "not-a-fixed-point"
+    | _ => some "no-trailing-newline"
+
+def runRoundTrip (lineS domS extS firstS secondS : String) : Result :=
+  let env : Env := ⟨genTables, parseExt extS⟩
+  match unhexTok lineS, parseImpl firstS with
+  | some line, some first =>
+    let second := if secondS == "-" then none else parseImpl secondS
+    let m1 := jlLine env [] [] line
+    let ms1 := showLine m1
+    let is1 := if first.panic then "panic" else if first.ok then "ok " ++ hexTok first.bytes else "err " ++ first.cls
+    let m2s : String :=
+      match m1 with
+      | .ok (b, none) =>
+        (match b.reverse with
+         | 0x0A :: rb => showLine (jlLine env [] [] rb.reverse)
+         | _ => "-")
+      | _ => "-"
+    let is2 := match second with
+      | none => "-"
+      | some s2 => if s2.panic then "panic" else if s2.ok then "ok " ++ hexTok s2.bytes else "err " ++ s2.cls
+    let d := ms1 != is1 || m2s != is2
+    let p := if domS == "1" then c02Violation line first second else (if first.panic then some "panic" else none)
+    match d, p with
+    | false, none => ⟨"S", ""⟩
+    | true, none => ⟨"D", s!"rtrip in={lineS} impl [{is1} / {is2}] model [{ms1} / {m2s}]"⟩
+    | _, some c => ⟨(if d then "D" else "") ++ "P", s!"rtrip in={lineS} impl [{is1} / {is2}] model [{ms1} / {m2s}] violates C02: key={c}"⟩
+  | _, _ => ⟨"B", "cannot parse rtrip case"⟩
+
+/-- accept \t C16 \t ti \t line \t ext \t "<ok|err cls|panic> rownil=<b> agree=<b>" \t "govalid=<b>" -/
+def runAccept (tiS lineS extS implS goS : String) : Result :=
+  let env : Env := ⟨genTables, parseExt extS⟩
+  match tmplOf env tiS, unhexTok lineS with
+  | some ti, some line =>
+    let its := toks implS
+    let implOk := its.head? == some "ok"
+    let implPanic := its.head? == some "panic"
+    let rownil := its.contains "rownil=1"
+    let agree := its.contains "agree=1"
+    let goValid := goS == "govalid=1"
+    let recognised := Json.accepts line
+    let m := getRow env ti line
+    let mOk : Option Bool := match m with
+      | .ok (_, none) => some true
+      | .ok (_, some _) => some false
+      | .err .ext => none
+      | .err _ => some false
+      | .panic _ => some false
+    -- the recogniser itself against encoding/json (model validation)
+    if recognised != goValid then
+      ⟨"D", s!"recogniser disagrees with encoding/json on {lineS}: model {recognised} go {goValid}"⟩
+    else if implPanic then ⟨"P", s!"accept {lineS}: panic violates C16: key=panic"⟩
+    else
+      match mOk with
+      | none => ⟨"X", "model abstains"⟩
+      | some mo =>
+        let d := mo != implOk
+        -- C16: accepted iff one valid object whose declared columns convert; a rejected line yields no row
+        let p : Option String :=
+          if implOk && !recognised then some "accepted-invalid-text"
+          else if !implOk && recognised && tiS == "T0" then some "rejected-valid-object"
+          else if !implOk && !rownil then some "partially-filled-row-returned"
+          else if !agree then some "entry-points-disagree"
+          else none
+        match d, p with
+        | false, none => ⟨"S", ""⟩
+        | true, none => ⟨"D", s!"accept ti=[{tiS}] {lineS}: impl {implOk} model {mo}"⟩
+        | _, some c => ⟨(if d then "D" else "") ++ "P", s!"accept ti=[{tiS}] {lineS}: impl [{implS}] model {mo} violates C16: key={c}"⟩
+  | _, _ => ⟨"B", "cannot parse accept case"⟩
+
 end Jl.Driver.Line
